@@ -455,10 +455,17 @@ def m_events(x, ref: t.Optional[RefResult], spec: dict, rid: int = 0, nmgr: int 
                         out.append(('events-consumer-before-complete', f'{n}#{i} started before on_node_complete({arg}, error=None)'))
     # managers called in registration order
     if nmgr > 1:
-        seq0 = [(e[1], e[2]) for e in tr.events if e[4] == 0]
-        seq1 = [(e[1], e[2]) for e in tr.events if e[4] == 1]
-        if not run_failed and seq0 != seq1:
-            out.append(('events-managers-differ', 'the two managers observed different histories'))
+        # per node (and for the pipeline-level events) both managers must observe the same history; the interleaving of
+        # events of DIFFERENT nodes may differ between managers when a callback of the first one suspends
+        def per_node(m: int) -> dict:
+            d: t.Dict[t.Any, list] = {}
+            for e in tr.events:
+                if e[4] == m:
+                    d.setdefault(e[2], []).append((e[1], None if e[3] is None or e[1].startswith('pipeline') else type(e[3]).__name__))
+            return d
+        if not run_failed and per_node(0) != per_node(1):
+            diff = [k for k in set(per_node(0)) | set(per_node(1)) if per_node(0).get(k) != per_node(1).get(k)]
+            out.append(('events-managers-differ', f'the two managers observed different histories for {diff[:3]}'))
     return out
 
 
